@@ -243,21 +243,22 @@ def get_vxc_nldf(
     if par_atom:
         raise NotImplementedError
     else:
-        nldf_feat = []
+        # The NLDF generator keeps the data of its latest get_features call for the
+        # following get_potential call, so the feature, XC and potential passes must be
+        # completed for one density matrix before the next one is started.
         for idm in range(nset):
-            nldf_feat.append(ni.nldfgen.get_features(rho_full[idm]))
-        ip0 = 0
-        for mask, weight, coords in ni.extra_block_loop(
-            mol, grids, max_memory=max_memory, extra_ao=extra_ao
-        ):
-            ip1 = ip0 + weight.size
-            for idm in range(nset):
+            nldf_feat = ni.nldfgen.get_features(rho_full[idm])
+            ip0 = 0
+            for mask, weight, coords in ni.extra_block_loop(
+                mol, grids, max_memory=max_memory, extra_ao=extra_ao
+            ):
+                ip1 = ip0 + weight.size
                 rho = rho_full[idm, :, ip0:ip1]
                 sdmx_feat = None
                 exc, (vxc, vxc_nldf, vxc_sdmx) = ni.eval_xc_cider(
                     xc_code,
                     np.ascontiguousarray(rho),
-                    np.ascontiguousarray(nldf_feat[idm][:, ip0:ip1]),
+                    np.ascontiguousarray(nldf_feat[:, ip0:ip1]),
                     sdmx_feat,
                     deriv=1,
                     xctype=xctype,
@@ -267,19 +268,17 @@ def get_vxc_nldf(
                 nelec[idm] += den.sum()
                 excsum[idm] += np.dot(den, exc)
                 wv_full[idm, :, ip0:ip1] = weight * vxc
-            ip0 = ip1
-        for idm in range(nset):
+                ip0 = ip1
             wv_full[idm, :, :] += ni.nldfgen.get_potential(vxc_nldf_full[idm])
 
-    for i, ip0, ip1, ao, mask, weight, coords in block_loop(ao_deriv):
-        for idm in range(nset):
-            rho = np.ascontiguousarray(rho_full[idm, :, ip0:ip1])
-            wv = np.ascontiguousarray(wv_full[idm][:, ip0:ip1])
-            wv[0] *= 0.5
-            _gga_grad_sum_(vmat[idm], mol, ao, wv[:4], mask, ao_loc)
-            if xctype == "MGGA":
-                wv[4] *= 0.5
-                _tau_grad_dot_(vmat[idm], mol, ao, wv[4], mask, ao_loc, True)
+    # block_loop yields every block once per density matrix
+    for idm, ip0, ip1, ao, mask, weight, coords in block_loop(ao_deriv):
+        wv = np.ascontiguousarray(wv_full[idm][:, ip0:ip1])
+        wv[0] *= 0.5
+        _gga_grad_sum_(vmat[idm], mol, ao, wv[:4], mask, ao_loc)
+        if xctype == "MGGA":
+            wv[4] *= 0.5
+            _tau_grad_dot_(vmat[idm], mol, ao, wv[4], mask, ao_loc, True)
 
     exc = None
     if nset == 1:
